@@ -532,9 +532,17 @@ class Arr:
             tags = {}
             if CTX.typed and name in ('add', 'sub') and dt == 'complex':
                 sum_typing(self, o)
+            if name == 'mul':
+                for sg_, other_ in ((self, o), (o, self)):
+                    if 'sign_of' in sg_.tags and not sg_.tags.get('stores') and not sg_.buf.writes:
+                        CTX.event('sign-scale', array=other_, sign=sg_, detail='an array is multiplied by np.sign(...) of data: the sign of an entry that is exactly zero is 0, so the scaled '
+                                  'slice is wiped out instead of keeping its sign (no guard replaces the zeros of the sign array)')
         elif isinstance(o, (int, float, complex, Size)) or is_scalar(o):
             shape, legs, dt = self.shape, self.legs, join_dtype(self.dt, 'complex' if isinstance(o, complex) or (isinstance(o, Arr) and o.dt == 'complex') else 'real')
             tags = {}
+            if name == 'mul' and isinstance(o, Arr) and 'sign_of' in o.tags and not o.buf.writes:
+                CTX.event('sign-scale', array=self, sign=o, detail='an array is multiplied by np.sign(...) of a data value: the sign of a value that is exactly zero is 0, so the array is wiped out '
+                          'instead of keeping its sign')
             if name in ('mul', 'div') and 'prov' in self.tags:
                 pass
         else:
@@ -1206,6 +1214,9 @@ def getitem(a, idx):
             tags['orth'] = 'RO'
     r = Arr(shape, legs, a.dt, a.buf if view else None, tags, 'getitem')
     r.tags['sel_of'] = (a, tuple(sel))
+    for e_ in reversed(CTX.events[-8:]):
+        if e_.get('kind') == 'index-drop' and e_.get('array') is a and 'result' not in e_:
+            e_['result'] = r          # (what was selected: a rule may find that the slice is only inspected, e.g. for its sign, and never becomes part of a core)
     if adv:
         r.tags['gathered'] = (a.buf.uid, tuple(id(x) for x in adv))          # a copy gathered through index arrays (see setitem: buffered in-place updates)
     m_ = a.tags.get('mx')
